@@ -46,6 +46,12 @@ OPERATOR_FUNCS = {"eq": lambda a, b: a == b, "ne": lambda a, b: a != b,
                   "contains": lambda a, b: b in a}
 
 
+class Raises(Unknown):
+    """the evaluated expression raises at run time (e.g. TypeError of
+    ``str.startswith(x, None)``) – a fact about the code, not a limit of
+    the evaluator"""
+
+
 class Unordered(Unknown):
     """the expression turns a set into a sequence: the order is undefined"""
 
@@ -163,10 +169,14 @@ class Mini:
                     r = left is right
                 elif isinstance(op, ast.IsNot):
                     r = left is not right
-                elif isinstance(op, ast.In):
-                    r = left in right
-                elif isinstance(op, ast.NotIn):
-                    r = left not in right
+                elif isinstance(op, (ast.In, ast.NotIn)):
+                    try:
+                        r = left in right
+                    except TypeError as exc:
+                        raise Raises(f"{txt(e)} raises "
+                                     f"{type(exc).__name__}")
+                    if isinstance(op, ast.NotIn):
+                        r = not r
                 else:
                     raise Unknown(txt(e))
                 if not r:
@@ -235,7 +245,7 @@ class Mini:
             except Unknown:
                 raise
             except Exception as exc:
-                raise Unknown(f"{txt(e)} raises {type(exc).__name__}")
+                raise Raises(f"{txt(e)} raises {type(exc).__name__}")
         if isinstance(e, ast.Call) and not e.keywords:
             try:
                 if isinstance(e.func, ast.Attribute) \
@@ -243,6 +253,8 @@ class Mini:
                             dotted(e.func) or "").startswith(
                             ("str.", "operator.")):
                     recv = self.ev(e.func.value)
+                    if recv is None:
+                        raise Raises(f"{txt(e)} raises AttributeError")
                     if not isinstance(recv, str):
                         raise Unknown(txt(e))
                     args = [self.ev(a) for a in e.args]
@@ -262,7 +274,7 @@ class Mini:
             except Unknown:
                 raise
             except Exception as exc:     # ValueError of str.index, ...
-                raise Unknown(f"{txt(e)} raises {type(exc).__name__}")
+                raise Raises(f"{txt(e)} raises {type(exc).__name__}")
         raise Unknown(txt(e))
 
 
